@@ -60,6 +60,10 @@ CONFIGS = {
     "slash": dict(get=[("BUILD", "metadata"), ("BASE64", True), ("HEADER", b"Cookie")],
                   post=[("BUILD", "id"), ("PARAMETER", b"id"), ("BUILD", "output"), ("PRINT", True)],
                   recover=[("print", True)], domains=b"c2.example.org,/api/v2/", submit=b"/news/"),
+    # zero-length arguments (a profile with `append "";` / `prepend "";`): every step is still undone exactly
+    "emptyarg": dict(get=[("BUILD", "metadata"), ("BASE64", True), ("APPEND", b""), ("HEADER", b"Cookie")],
+                     post=[("BUILD", "id"), ("PREPEND", b""), ("PARAMETER", b"id"), ("BUILD", "output"), ("APPEND", b""), ("PRINT", True)],
+                     recover=[("print", True), ("append", 0), ("prepend", 0)]),
     "sameverb": dict(get=[("BUILD", "metadata"), ("BASE64", True), ("HEADER", b"Cookie")],
                      post=[("BUILD", "id"), ("PARAMETER", b"id"), ("BUILD", "output"), ("PRINT", True)],
                      recover=[("print", True)], verb_post=b"GET"),
@@ -281,7 +285,7 @@ def instances(tier):
     hist = [("N",), ("T",), ("T", "C"), ("N", "T", "C"), ("T", "C", "C"), ("T", "T"), ("N", "CC"), ("T", "C", "N")]
     if not q:
         hist += [h for h in itertools.product("NTC", repeat=4) if h[0] in "NT" and "C" in h][:20]
-    for cfgname in (("cookie", "netbios", "wrapped", "sameverb", "slash") if q else tuple(CONFIGS)):
+    for cfgname in (("cookie", "netbios", "wrapped", "sameverb", "slash", "emptyarg") if q else tuple(CONFIGS)):
         for keys in ("rsa", "rand", "aes", "rsa+aes", "rsa+hmac", "rsa+aes+hmac"):
             for h in hist:
                 if "+" in keys and (cfgname not in ("cookie", "netbios") or h not in ((("T", "C"),) if q else (("T", "C"), ("N", "T", "C"), ("N", "CC")))):
@@ -290,7 +294,7 @@ def instances(tier):
                     continue
                 if q and cfgname != "cookie" and h not in (("T", "C"), ("N", "T", "C"), ("N", "CC")):
                     continue
-                if q and cfgname in ("sameverb", "slash") and keys != "rsa":
+                if q and cfgname in ("sameverb", "slash", "emptyarg") and keys != "rsa":
                     continue
                 # (the raw wire form needs concrete URL parameters: configurations that carry symbolic data in a parameter are decoded as objects)
                 raw = cfgname == "slash" or (cfgname in ("cookie", "sameverb") and (not q or h in (("T", "C"), ("N", "T", "C"))))
